@@ -806,10 +806,14 @@ func judgeFidelity(r *Run, j *Judged, c *cls) {
 			continue // stripped because of no-cache="field"
 		}
 		if len(got) == 0 {
+			// (carried as an end-to-end field, that is: a field the message itself nominated in Connection was
+			// never stored)
 			_, inB := c.B.Header[k]
+			inB = inB && !canonHopByHop(c.B.Header)[k]
 			inH := false
 			if c.H != nil {
 				_, inH = c.H.Header[k]
+				inH = inH && !canonHopByHop(c.H.Header)[k]
 			}
 			if !inB && !inH {
 				continue // only an intermediate 304 (possibly of a concurrent validation) carried it
